@@ -21,20 +21,58 @@ type seqSlice struct {
 	off, len, cap int
 }
 
+type seqMap struct {
+	keys []string
+	vals map[string]string
+}
+
 type seqState struct {
-	spine map[string]seqSlice // container key -> spine header
-	arrs  map[int][]string    // array identity -> cells
+	spine  map[string]seqSlice // container key -> spine header (lists)
+	arrs   map[int][]string    // array identity -> cells
+	mspine map[string]int      // container key -> map identity (objects)
+	maps   map[int]*seqMap
+}
+
+func newSeqState() *seqState {
+	return &seqState{spine: map[string]seqSlice{}, arrs: map[int][]string{}, mspine: map[string]int{}, maps: map[int]*seqMap{}}
 }
 
 func (s *seqState) clone() *seqState {
-	n := &seqState{spine: map[string]seqSlice{}, arrs: map[int][]string{}}
+	n := newSeqState()
 	for k, v := range s.spine {
 		n.spine[k] = v
 	}
 	for k, v := range s.arrs {
 		n.arrs[k] = append([]string(nil), v...)
 	}
+	for k, v := range s.mspine {
+		n.mspine[k] = v
+	}
+	for k, v := range s.maps {
+		m := &seqMap{keys: append([]string(nil), v.keys...), vals: map[string]string{}}
+		for a, b := range v.vals {
+			m.vals[a] = b
+		}
+		n.maps[k] = m
+	}
 	return n
+}
+
+func (m *seqMap) set(k, v string) {
+	if _, ok := m.vals[k]; !ok {
+		m.keys = append(m.keys, k)
+	}
+	m.vals[k] = v
+}
+
+func (m *seqMap) String() string {
+	ks := append([]string(nil), m.keys...)
+	sort.Strings(ks)
+	var parts []string
+	for _, k := range ks {
+		parts = append(parts, k+":"+m.vals[k])
+	}
+	return "{" + strings.Join(parts, ",") + "}"
 }
 
 type seqSnap struct {
@@ -55,6 +93,10 @@ type seqRun struct {
 	nextArr int
 	convs   int          // conversions performed by per-step Add calls (each yields its own element)
 	other   types.Object // the other list (Concat)
+	made    map[string]seqSlice // make([]field…) terms already allocated (a term denotes one allocation)
+	madeMap map[string]int
+	opnd    func(Term) bool // the native operand of a From-constructor (a slice or map of opndLen symbolic entries)
+	opndLen int
 	why     string
 	panic   string
 }
@@ -135,6 +177,9 @@ func (r *seqRun) containerKey(t Term) string {
 	if _, isLit := t.(TLit); isLit {
 		return "new:" + key(t)
 	}
+	if call, ok := t.(TCall); ok && call.Fun != nil && call.Fun.Pkg() == r.c.Types && len(call.Args) == 0 && (call.Fun.Name() == "NewObject" || call.Fun.Name() == "NewList") {
+		return "new:" + key(t) // an empty container made by the public constructor
+	}
 	return ""
 }
 
@@ -172,6 +217,16 @@ func (r *seqRun) spineOfContainer(x Term, epoch int) (seqSlice, bool) {
 		return s, true
 	}
 	if strings.HasPrefix(k, "new:") {
+		if _, isCall := x.(TCall); isCall {
+			init := seqSlice{id: r.newArr([]string{"stale", "stale"}), len: 0, cap: 2}
+			r.cur.spine[k] = init
+			for i := range r.snaps {
+				if _, has := r.snaps[i].st.spine[k]; !has {
+					r.snaps[i].st.spine[k] = init
+				}
+			}
+			return init, true
+		}
 		// first touch of a container allocated on this path: its spine is what the literal says
 		lit, ok := freshLit(x)
 		cl, isCl := lit.Node.(*ast.CompositeLit)
@@ -228,6 +283,12 @@ func (r *seqRun) intHook() func(Term) (int64, bool) {
 						return int64(n), true
 					}
 				}
+				if r.opnd != nil && r.opnd(x.Args[0]) {
+					return int64(r.opndLen), true
+				}
+				if id, ok := r.mapOf(x.Args[0]); ok && x.Name == "len" {
+					return int64(len(r.cur.maps[id].keys)), true
+				}
 				if s, ok := r.slice(x.Args[0]); ok {
 					if x.Name == "len" {
 						return int64(s.len), true
@@ -283,7 +344,29 @@ func (r *seqRun) cell(t Term) (string, bool) {
 			a, ok := r.cell(x.Args[0])
 			return "pv(" + a + ")", ok
 		}
+		if x.Fun != nil && x.Recv != nil && len(x.Args) == 0 && (x.Fun.Name() == "copy" || r.c.isValueAccessor(x.Fun)) {
+			a, ok := r.cell(x.Recv)
+			return x.Fun.Name() + "(" + a + ")", ok
+		}
+		if x.Fun != nil && x.Recv == nil && len(x.Args) == 1 {
+			if kind, isCtor := r.c.wrapperCtor(x.Fun); isCtor {
+				if _, isConv := x.Args[0].(TConv); !isConv {
+					a, ok := r.cell(x.Args[0])
+					return "W<" + kind + ">(" + a + ")", ok // the wrapper of that kind around the value, unconverted
+				}
+			}
+		}
+	case TConv:
+		return r.cell(x.X)
 	case TIndex:
+		if r.opnd != nil && r.opnd(x.X) {
+			i, ok := r.int(x.I)
+			if ok && (i < 0 || int(i) >= r.opndLen) {
+				r.panic = "index out of range on the operand"
+				return "", false
+			}
+			return "$s[" + itoa(int(i)) + "]", ok
+		}
 		if tv, ok := x.X.(TVar); ok {
 			if _, isVals := r.nVals[tv.Obj]; isVals {
 				i, ok := r.int(x.I)
@@ -306,6 +389,133 @@ func (r *seqRun) cell(t Term) (string, bool) {
 		return r.cells(r.at(x.Epoch), s)[i], true
 	}
 	return "?" + r.c.termStr(t), true
+}
+
+// mapOf: the map a term denotes (an object's spine, a map made on this path); silent when the term is no map.
+func (r *seqRun) mapOf(t Term) (int, bool) {
+	newMap := func() int {
+		r.nextArr++
+		id := r.nextArr
+		r.cur.maps[id] = &seqMap{vals: map[string]string{}}
+		for i := range r.snaps {
+			r.snaps[i].st.maps[id] = &seqMap{vals: map[string]string{}}
+		}
+		return id
+	}
+	switch x := t.(type) {
+	case TSel:
+		b, ct := r.v.spineOf(x)
+		if ct == nil || ct.IsList {
+			return 0, false
+		}
+		k := r.containerKey(b)
+		if k == "" {
+			return 0, false
+		}
+		if id, ok := r.cur.mspine[k]; ok {
+			return id, true
+		}
+		if !strings.HasPrefix(k, "new:") {
+			return 0, false
+		}
+		id := 0
+		if lit, ok := freshLit(b); ok {
+			if cl, isCl := lit.Node.(*ast.CompositeLit); isCl {
+				for i, el := range cl.Elts {
+					kv, isKV := el.(*ast.KeyValueExpr)
+					if !isKV || i >= len(lit.Elts) {
+						continue
+					}
+					if kid, ok := kv.Key.(*ast.Ident); ok && kid.Name == ct.Spine.Name() {
+						if mid, ok := r.mapOf(lit.Elts[i]); ok {
+							id = mid
+						}
+					}
+				}
+			}
+		}
+		if id == 0 {
+			id = newMap()
+		}
+		r.cur.mspine[k] = id
+		for i := range r.snaps {
+			if _, has := r.snaps[i].st.mspine[k]; !has {
+				r.snaps[i].st.mspine[k] = id
+			}
+		}
+		return id, true
+	case TBuiltin:
+		if x.Name == "make" && x.Type != nil {
+			if _, isMap := x.Type.Underlying().(*types.Map); isMap {
+				if r.madeMap == nil {
+					r.madeMap = map[string]int{}
+				}
+				if id, ok := r.madeMap[key(x)]; ok {
+					return id, true
+				}
+				id := newMap()
+				r.madeMap[key(x)] = id
+				return id, true
+			}
+		}
+	case TLit:
+		if x.Type != nil {
+			if _, isMap := x.Type.Underlying().(*types.Map); isMap && len(x.Elts) == 0 {
+				if r.madeMap == nil {
+					r.madeMap = map[string]int{}
+				}
+				if id, ok := r.madeMap[key(x)]; ok {
+					return id, true
+				}
+				id := newMap()
+				r.madeMap[key(x)] = id
+				return id, true
+			}
+		}
+	}
+	return 0, false
+}
+
+// objectMap: the spine of an object container term (a container made by NewObject() starts empty).
+func (r *seqRun) objectMap(x Term) (int, bool) {
+	k := r.containerKey(x)
+	if k == "" {
+		return 0, false
+	}
+	if id, ok := r.cur.mspine[k]; ok {
+		return id, true
+	}
+	if _, isCall := x.(TCall); isCall && strings.HasPrefix(k, "new:") {
+		r.nextArr++
+		id := r.nextArr
+		r.cur.maps[id] = &seqMap{vals: map[string]string{}}
+		r.cur.mspine[k] = id
+		for i := range r.snaps {
+			r.snaps[i].st.maps[id] = &seqMap{vals: map[string]string{}}
+			r.snaps[i].st.mspine[k] = id
+		}
+		return id, true
+	}
+	for _, ct := range r.c.Inv().Conts {
+		if !ct.IsList {
+			return r.mapOf(TSel{X: x, Field: ct.Spine})
+		}
+	}
+	return 0, false
+}
+
+// keySym: the symbolic map key a term denotes.
+func (r *seqRun) keySym(t Term) string {
+	switch x := t.(type) {
+	case TVar:
+		if s, ok := r.bind[x.Obj]; ok {
+			return s
+		}
+		return "$" + x.Obj.Name()
+	case TConst:
+		return x.Val.ExactString()
+	}
+	return "?" + r.c.termStr(t)
 }
 
 func (r *seqRun) slice(t Term) (seqSlice, bool) { return r.sliceAt(t, -1) }
@@ -352,11 +562,19 @@ func (r *seqRun) sliceAt(t Term, epoch int) (seqSlice, bool) {
 				r.panic = "make: len out of range"
 				return seqSlice{}, false
 			}
+			if r.made == nil {
+				r.made = map[string]seqSlice{}
+			}
+			if s, ok := r.made[key(x)]; ok {
+				return s, true // the same allocation, met again (headers derived from it carry their own length)
+			}
 			var cs []string
 			for i := int64(0); i < cp; i++ {
 				cs = append(cs, "nil")
 			}
-			return seqSlice{id: r.newArr(cs), len: int(n), cap: int(cp)}, true
+			sl := seqSlice{id: r.newArr(cs), len: int(n), cap: int(cp)}
+			r.made[key(x)] = sl
+			return sl, true
 		case "append":
 			if len(x.Args) < 1 {
 				break
@@ -441,7 +659,18 @@ func (r *seqRun) exec(steps []Step) bool {
 			switch l := st.LHS.(type) {
 			case TSel:
 				b, ct := r.v.spineOf(l)
-				if ct == nil || !ct.IsList {
+				if ct != nil && !ct.IsList {
+					if id, ok := r.mapOf(st.RHS); ok {
+						if k := r.containerKey(b); k != "" {
+							r.cur.mspine[k] = id
+							r.snapshot(st.Heap)
+							continue
+						}
+					}
+					r.fail("map spine store the model cannot follow: " + r.c.stepStr(st))
+					return false
+				}
+				if ct == nil {
 					continue // ptr registration and the like
 				}
 				k := r.containerKey(b)
@@ -455,6 +684,15 @@ func (r *seqRun) exec(steps []Step) bool {
 				}
 				r.cur.spine[k] = s
 			case TIndex:
+				if id, isMap := r.mapOf(l.X); isMap {
+					c, ok := r.cell(st.RHS)
+					if !ok {
+						return false
+					}
+					r.cur.maps[id].set(r.keySym(l.I), c)
+					r.snapshot(st.Heap)
+					continue
+				}
 				s, ok := r.slice(l.X)
 				if !ok {
 					return false
@@ -509,6 +747,8 @@ func (r *seqRun) exec(steps []Step) bool {
 				return false
 			}
 			switch {
+			case r.opnd != nil && len(call.Args) == 1 && r.opnd(call.Args[0]) && trustedSorts[call.Fun.FullName()] != "":
+				// the trusted sort permutes the operand in place: its entries are symbolic, $s[j] now names the j-th in sorted order
 			case call.Fun.FullName() == "sort.Ints" && len(call.Args) == 1:
 				if tv, ok := call.Args[0].(TVar); ok {
 					if a, ok := r.intArgs[tv.Obj]; ok {
@@ -520,6 +760,24 @@ func (r *seqRun) exec(steps []Step) bool {
 				return false
 			case call.Fun.Name() == "Init":
 				// registration of the ego: no effect on spines
+			case call.Recv != nil && strings.HasPrefix(r.containerKey(call.Recv), "new:") && call.Fun.Name() == "Set":
+				// Set on the object being built: plain map assignment of the conversion of each value (C06.R1)
+				id, ok := r.objectMap(call.Recv)
+				args := unpack(call.Args)
+				if !ok || len(args)%2 != 0 {
+					r.fail("Set the model cannot follow: " + r.c.termStr(*call))
+					return false
+				}
+				for i := 0; i+1 < len(args); i += 2 {
+					c, ok := r.cell(args[i+1])
+					if !ok {
+						return false
+					}
+					r.cur.maps[id].set(r.keySym(args[i]), "pv("+c+")")
+				}
+				r.snapshot(st.Heap)
+			case call.Fun.Name() == "copy" && call.Recv != nil && len(call.Args) == 0:
+				// element.copy(): its value is the term; no effect on the containers modelled here
 			case call.Recv != nil && strings.HasPrefix(r.containerKey(call.Recv), "new:") && call.Fun.Name() == "Add":
 				// Add on the container being built: the model's append of a conversion made at this very step
 				k := r.containerKey(call.Recv)
@@ -647,6 +905,50 @@ func (r *seqRun) loop(l *LoopRec) bool {
 		return r.exec(sel.Steps)
 	}
 	if l.Range != nil {
+		// the native operand of a From-constructor, or the receiver's own spine
+		entries := -1
+		keyPfx, valPfx := "", ""
+		if r.opnd != nil && r.opnd(l.Over) {
+			entries, keyPfx, valPfx = r.opndLen, "$k", "$s"
+		} else if b, ct := r.v.spineOf(l.Over); ct != nil && r.containerKey(b) == "recv" {
+			if ct.IsList {
+				entries, valPfx = r.cur.spine["recv"].len, "e"
+			} else if id, ok := r.cur.mspine["recv"]; ok {
+				entries, keyPfx, valPfx = len(r.cur.maps[id].keys), "k", "e"
+			}
+		}
+		if entries >= 0 {
+			isMapRange := false
+			if t := r.c.termType(l.Over); t != nil {
+				_, isMapRange = t.Underlying().(*types.Map)
+			}
+			if b, ct := r.v.spineOf(l.Over); ct != nil && b != nil && !ct.IsList {
+				isMapRange = true
+			}
+			for j := 0; j < entries; j++ {
+				if l.Key != nil {
+					if isMapRange {
+						r.bind[l.Key] = keyPfx + itoa(j)
+						if keyPfx == "$k" {
+							r.bind[l.Key] = "$k[" + itoa(j) + "]"
+						}
+					} else {
+						r.ints[l.Key] = int64(j)
+					}
+				}
+				if l.Value != nil {
+					if valPfx == "$s" {
+						r.bind[l.Value] = "$s[" + itoa(j) + "]"
+					} else {
+						r.bind[l.Value] = valPfx + itoa(j)
+					}
+				}
+				if !iterate() {
+					return false
+				}
+			}
+			return true
+		}
 		tv, ok := l.Over.(TVar)
 		n, isVals := 0, false
 		if ok {
@@ -861,7 +1163,7 @@ func c05Sequence(c *Ctx) {
 				r.nVals[valsP] = cs.nVals
 				label += " " + itoa(cs.nVals) + " value(s)"
 			}
-			r.cur = &seqState{spine: map[string]seqSlice{}, arrs: map[int][]string{}}
+			r.cur = newSeqState()
 			r.cur.spine["recv"] = seqSlice{id: r.newArr(append(elems("e", cs.n), "stale", "stale")), len: cs.n, cap: cs.n + 2}
 			if otherP != nil {
 				r.cur.spine["other"] = seqSlice{id: r.newArr(append(elems("f", cs.m), "stale")), len: cs.m, cap: cs.m + 1}
@@ -975,4 +1277,164 @@ func c05Sequence(c *Ctx) {
 		}
 	}
 	c.R.Floor("C05.R5", total, 60)
+}
+
+// foldBuild executes one path of a function that BUILDS a container — a From-constructor arm (operand: a native slice or map of k symbolic
+// entries) or copy() (receiver: a container of k symbolic elements) — on the spine model and compares the content of the returned
+// container with want(k). Returns "" when the construction is element-wise for k = 0..3, otherwise what differs (undec: outside the model).
+func (c *Ctx) foldBuild(v *sxView, p *Path, operand Term, par types.Object, recvIsList, resultIsList bool, want func(k int) ([]string, map[string]string)) (bad, undec string) {
+	return c.foldBuildInto(v, p, operand, par, recvIsList, resultIsList, false, "", want)
+}
+
+// elemKindOf: the kind of the elements of a native slice/map type when they are of a basic Go type ("" otherwise).
+func (c *Ctx) elemKindOf(t types.Type) string {
+	if t == nil {
+		return ""
+	}
+	var e types.Type
+	switch u := t.Underlying().(type) {
+	case *types.Slice:
+		e = u.Elem()
+	case *types.Map:
+		e = u.Elem()
+	}
+	if e == nil {
+		return ""
+	}
+	if _, isBasic := e.Underlying().(*types.Basic); !isBasic {
+		return ""
+	}
+	return c.kindOfType(e)
+}
+
+// foldBuildInto: as foldBuild; intoRecv: the built content must be the RECEIVER's spine afterwards (Sort's rebuild). elemKind: wrappers of
+// that kind constructed directly around an entry count as parseVal of it (parseVal's table maps that Go type to that constructor: C12.R1).
+func (c *Ctx) foldBuildInto(v *sxView, p *Path, operand Term, par types.Object, recvIsList, resultIsList, intoRecv bool, elemKind string, want func(k int) ([]string, map[string]string)) (bad, undec string) {
+	norm := func(cell string) string {
+		pre := "W<" + elemKind + ">("
+		if elemKind != "" && strings.HasPrefix(cell, pre) {
+			return "pv(" + strings.TrimPrefix(cell, pre)
+		}
+		return cell
+	}
+	if p.End != "return" || len(p.Vals) != 1 {
+		return "the path does not return the container it builds", ""
+	}
+	kMin := 0
+	if intoRecv {
+		kMin = 1 // Sort examines element 0: the list is non-empty
+	}
+	for k := kMin; k <= 3; k++ {
+		r := &seqRun{c: c, v: v, ints: map[types.Object]int64{}, intArgs: map[types.Object][]int64{}, nVals: map[types.Object]int{}, bind: map[types.Object]string{}, loopInt: map[int]map[types.Object]int64{}}
+		if r.v.ct == nil {
+			cp := *v
+			for _, ct := range c.Inv().Conts {
+				if ct.IsList == resultIsList {
+					cp.ct = ct
+				}
+			}
+			r.v = &cp
+		}
+		r.cur = newSeqState()
+		if operand != nil {
+			r.opndLen = k
+			r.opnd = func(t Term) bool {
+				return sameTerm(t, operand) || sameTerm(t, TProj{operand, 0}) || (par != nil && isParamTerm(t, par))
+			}
+			if intoRecv {
+				r.cur.spine["recv"] = seqSlice{id: r.newArr(append(elems("e", k), "stale", "stale")), len: k, cap: k + 2}
+			}
+		} else if recvIsList {
+			r.cur.spine["recv"] = seqSlice{id: r.newArr(append(elems("e", k), "stale", "stale")), len: k, cap: k + 2}
+		} else {
+			r.nextArr++
+			m := &seqMap{vals: map[string]string{}}
+			for j := 0; j < k; j++ {
+				m.set("k"+itoa(j), "e"+itoa(j))
+			}
+			r.cur.maps[r.nextArr] = m
+			r.cur.mspine["recv"] = r.nextArr
+		}
+		r.snapshot(-1 << 30)
+		r.exec(p.Steps)
+		label := itoa(k) + " entr" + map[bool]string{true: "y", false: "ies"}[k == 1]
+		if r.panic != "" {
+			return label + ": " + r.panic, ""
+		}
+		if r.why != "" {
+			return "", label + ": " + r.why
+		}
+		wl, wm := want(k)
+		if intoRecv {
+			got := r.cells(r.cur, r.cur.spine["recv"])
+			for i := range got {
+				got[i] = norm(got[i])
+			}
+			if strings.Join(got, ",") != strings.Join(wl, ",") {
+				return label + ": the receiver shows [" + strings.Join(got, ",") + "], expected [" + strings.Join(wl, ",") + "]", ""
+			}
+		} else if resultIsList {
+			if !strings.HasPrefix(r.containerKey(p.Vals[0]), "new:") {
+				return "the result is not a container created by this call", ""
+			}
+			rs, ok := r.spineOfContainer(p.Vals[0], -1)
+			if !ok {
+				return "", label + ": " + r.why
+			}
+			got := r.cells(r.cur, rs)
+			for i := range got {
+				got[i] = norm(got[i])
+			}
+			if strings.Join(got, ",") != strings.Join(wl, ",") {
+				return label + ": the result shows [" + strings.Join(got, ",") + "], expected [" + strings.Join(wl, ",") + "]", ""
+			}
+		} else {
+			if !strings.HasPrefix(r.containerKey(p.Vals[0]), "new:") {
+				return "the result is not a container created by this call", ""
+			}
+			id, ok := r.objectMap(p.Vals[0])
+			if !ok {
+				return "", label + ": the result's map is not known to the model"
+			}
+			wantM := &seqMap{vals: map[string]string{}}
+			var ks []string
+			for a := range wm {
+				ks = append(ks, a)
+			}
+			sort.Strings(ks)
+			for _, a := range ks {
+				wantM.set(a, wm[a])
+			}
+			gm := r.cur.maps[id]
+			for a, b := range gm.vals {
+				gm.vals[a] = norm(b)
+			}
+			if got := gm.String(); got != wantM.String() {
+				return label + ": the result shows " + got + ", expected " + wantM.String(), ""
+			}
+		}
+	}
+	return "", ""
+}
+
+// wantFrom: what a From-constructor must build from k native entries.
+func wantFrom(k int) ([]string, map[string]string) {
+	var l []string
+	m := map[string]string{}
+	for j := 0; j < k; j++ {
+		l = append(l, "pv($s["+itoa(j)+"])")
+		m["$k["+itoa(j)+"]"] = "pv($s[" + itoa(j) + "])"
+	}
+	return l, m
+}
+
+// wantCopy: what copy() must build from a container of k elements.
+func wantCopy(k int) ([]string, map[string]string) {
+	var l []string
+	m := map[string]string{}
+	for j := 0; j < k; j++ {
+		l = append(l, "pv(copy(e"+itoa(j)+"))")
+		m["k"+itoa(j)] = "pv(copy(e" + itoa(j) + "))"
+	}
+	return l, m
 }
